@@ -74,6 +74,16 @@ def scenario_of(case):
         pre["seeds"] = {**scn["seeds"], "rng": scn["seeds"]["rng"] + 1}
         scn["_same_size_rerun"] = True
         return scn, pre
+    if case["run_index"] % 8 == 3:
+        # the emcee-driven SMC variant writes its checkpoints through the same loop (its own randomness is not restorable,
+        # which matters for C11, not for what the file holds after an interruption)
+        scn["sampler"] = "emcee_smc"
+        sk = scn["sample_kwargs"]
+        for k in ("min_step", "max_n_steps"):
+            sk.pop(k, None)
+        sk["sampler_kwargs"] = {"nsteps": 2, "progress": False}
+        scn["rng_route"] = "none"
+        scn["_schedule_mode"] = str(scn.get("_schedule_mode")) + "+emcee_smc"
     if rng.integers(3) == 0:
         pre = copy.deepcopy(scn)
         pre["n_samples"] = scn["n_samples"] * 2 + 7
